@@ -582,6 +582,36 @@ def r_arity(prog, tier):
             if isinstance(v, ast.Call) and isinstance(v.func, ast.Name) and v.func.id.endswith('LabelGenerator'):
                 obs.append(Ob('R-ARITY/UNIQUE', mname, 'no label generator lives at module level', False,
                               '`%s` is shared by all calls' % nm, construct='labelgen-global:' + nm))
+    # the chain of binarization rules: each rule rewrites the symbol the previous rule introduced
+    f = prog.func('grammar', 'binarize_rule')
+    cfg = f.cfg
+    for n in cfg.eval_nodes():
+        if not (n.kind == 'stmt' and n.loops and isinstance(n.ast, ast.Assign) and len(n.ast.targets) == 1):
+            continue
+        v = n.ast.value
+        if isinstance(v, ast.Call) and isinstance(v.func, ast.Name) and v.func.id == 'tuple' and len(v.args) == 1 \
+                and isinstance(v.args[0], (ast.List, ast.Tuple)):
+            v = v.args[0]
+        if not (isinstance(v, (ast.Tuple, ast.List)) and len(v.elts) == 3 and isinstance(v.elts[0], ast.Name)
+                and isinstance(v.elts[2], ast.Name)):
+            continue
+        A, C = v.elts[0].id, v.elts[2].id
+        lp = n.loops[-1]
+        cdefs = [nid for (nid, val) in name_defs(f, C) if lp in cfg.nodes[nid].loops and isinstance(val, ast.Call)]
+        if not cdefs:
+            continue            # the third component is not a label made in this loop
+        adefs = [(nid, val) for (nid, val) in name_defs(f, A) if lp in cfg.nodes[nid].loops]
+        carried = [nid for (nid, val) in adefs if isinstance(val, ast.Name) and val.id == C and cfg.in_every_iteration(lp, nid)]
+        if carried:
+            ok, why = True, '`%s = %s` in every iteration: the next rule rewrites the symbol this one introduces' % (A, C)
+        elif not adefs and A not in f.params:
+            ok = False
+            why = '`%s` is never re-bound inside the loop while `%s` is a new symbol in every iteration: all chain rules rewrite ' \
+                  'the same symbol and the symbols introduced later are never rewritten' % (A, C)
+        else:
+            ok, why = None, 'the way `%s` follows `%s` through the loop is not recognised' % (A, C)
+        obs.append(Ob('R-ARITY/CHAIN', f.fq, 'chain rule `%s` rewrites the symbol introduced by the previous rule' % unparse(n.ast)[:60],
+                      ok, why, construct='chain:' + unparse(n.ast)[:60], line=n.lineno))
     return obs, {}
 
 
@@ -619,6 +649,15 @@ def _emission_verdict(f, n, k, v):
     elif isinstance(v, ast.Constant):
         return False, 'the position emitted with `%s` is the constant %r, not the count of earlier references' % (ks, v.value)
     if ctr is None:
+        # positive evidence: the position is read from the counter that is advanced for this key, but under another key
+        sub = v.left if (isinstance(v, ast.BinOp) and isinstance(v.op, ast.Sub) and isinstance(v.right, ast.Constant)) else v
+        if isinstance(sub, ast.Subscript):
+            base, other = unparse(sub.value), unparse(sub.slice)
+            adv = [m for m in cfg.eval_nodes() if m.kind == 'stmt' and _inc_of(m.ast) == (base, ks)
+                   and cfg.same_loop(m.id, n.id) and cfg.always_with(n.id, m.id)]
+            if adv and other != ks:
+                return False, 'the reference emitted is to `%s` and `%s[%s]` is advanced with it, but the position is read from ' \
+                              '`%s[%s]`: the count of another key' % (ks, base, ks, base, other)
         return None, 'position expression `%s` not modelled' % unparse(v)
     incs = [m for m in cfg.eval_nodes() if m.kind == 'stmt' and _inc_of(m.ast) == (ctr, ks)]
     if not incs:
